@@ -346,6 +346,9 @@ var boundaryTemplates = []struct {
 	{"x = 7\ny = 8\na = [&x, &y]\nt = 0\nfor p in a {\n*p = *p + 1\nt += *p\n}\nprobe(t)", []string{"(i 17)"}, ""},
 	{"x = 7\nc = make(chan interface, 1)\nc <- &x\nclose(c)\nfor p in c {\nprobe(*p)\n}", []string{"(i 7)"}, ""},
 	{"x = 7\na = [&x]\nfor p in a {\nprobe(p == a[0])\nprobe(*p == *a[0])\n}", []string{"(b 1)", "(b 1)"}, ""},
+	// a for-in over a channel ends when the channel is closed, not before - also when several loops receive from one channel
+	{"jobs = make(chan int64, 4)\nres = make(chan int64, 8)\nclosing = false\nfunc worker() {\nvar n = 0\nfor v in jobs {\nn++\n}\nif closing {\nres <- 0\n} else {\nres <- 1\n}\n}\nfor k = 0; k < 8; k++ {\ngo worker()\n}\nfor i = 0; i < 6000; i++ {\njobs <- i\n}\nclosing = true\nclose(jobs)\nearly = 0\nfor k = 0; k < 8; k++ {\nearly += <-res\n}\nprobe(early)", []string{"(i 0)"}, ""},
+	{"jobs = make(chan int64, 2)\nsum = make(chan int64, 3)\nfunc worker() {\nvar t = 0\nfor v in jobs {\nt += v\n}\nsum <- t\n}\nfor k = 0; k < 3; k++ {\ngo worker()\n}\nfor i = 1; i <= 3000; i++ {\njobs <- i\n}\nclose(jobs)\na = <-sum\nb = <-sum\nc = <-sum\nprobe(a + b + c)", []string{"(i 4501500)"}, ""},
 	// assigning to a for-in variable does not leak into the next iteration
 	{"t = 0\nfor x in [5, 20, 3] {\nif x > 10 {\nx = 10\n}\nt += x\n}\nprobe(t)", []string{"(i 18)"}, ""},
 	{"r = []\nfor x in [1, 2, 3] {\nx++\nr += x\n}\nprobe(r)", []string{"(l (i 2) (i 3) (i 4))"}, ""},
